@@ -391,6 +391,8 @@ def calls_of_forest(vs, rng, opts=None):
 # canonical observation text (same syntax as Data/Ion.v show_values)
 # ---------------------------------------------------------------------------
 def show_sym(t):
+    if isinstance(t, tuple):
+        return "i%d" % t[1]
     return "t" + bytes(t).hex()
 
 
@@ -685,3 +687,127 @@ class Enc:
                 out += self.lst_append(self.pending)
             out += e
         return out
+
+
+# ---------------------------------------------------------------------------
+# the values denoted by a sequence of (successful) writer calls
+# ---------------------------------------------------------------------------
+class Malformed(Exception):
+    pass
+
+
+def split_calls(tokens):
+    """group the flat token list of the line protocol into calls"""
+    ar = {"FN": 1, "AN": 1, "SYM": 1, "NULL": 0, "NT": 1, "BOOL": 1, "INT": 1, "UINT": 1, "BIG": 1, "FLOAT": 1,
+          "TS": 3, "SFS": 1, "STR": 1, "CLOB": 1, "BLOB": 1, "BL": 0, "EL": 0, "BS": 0, "ES": 0, "BT": 0, "ET": 0, "FIN": 0}
+    out = []
+    i = 0
+    while i < len(tokens):
+        c = tokens[i]
+        if c == "ANS":
+            n = int(tokens[i + 1])
+            out.append(tokens[i:i + 2 + n])
+            i += 2 + n
+        elif c == "DEC":
+            n = 1 if tokens[i + 1] == "nil" else 3
+            out.append(tokens[i:i + 1 + n])
+            i += 1 + n
+        else:
+            out.append(tokens[i:i + 1 + ar[c]])
+            i += 1 + ar[c]
+    return out
+
+
+def tok_text(t, symtab=None):
+    _, tx, sid = t.split(",")
+    sid = int(sid)
+    if tx != "-":
+        return bytes.fromhex(tx[1:])
+    return ("sid", sid)
+
+
+def forest_of_calls(calls):
+    """calls: list of token lists (one per call). Returns list of batches (forests).
+    Raises Malformed when the calls do not denote complete values."""
+    batches = []
+    stack = [("top", [])]
+    field = None
+    annots = []
+
+    def add(body):
+        nonlocal field, annots
+        kind, items = stack[-1][0], stack[-1][1]
+        v = (annots, body)
+        if kind == "struct":
+            if field is None:
+                raise Malformed("value in struct without field name")
+            items.append((field, v))
+        else:
+            items.append(v)
+        field, annots = None, []
+
+    for c in calls:
+        k = c[0]
+        if k == "FN":
+            if stack[-1][0] != "struct":
+                raise Malformed("field name outside struct")
+            field = tok_text(c[1])
+        elif k == "AN":
+            annots = annots + [tok_text(c[1])]
+        elif k == "ANS":
+            annots = annots + [tok_text(t) for t in c[2:]]
+        elif k == "NULL":
+            add(("null", TNULL))
+        elif k == "NT":
+            add(("null", int(c[1]) if int(c[1]) != 0 else TNULL))
+        elif k == "BOOL":
+            add(("bool", c[1] != "0"))
+        elif k in ("INT", "UINT", "BIG"):
+            add(("int", int(c[1])))
+        elif k == "FLOAT":
+            b = int(c[1])
+            if (b >> 52) & 0x7FF == 0x7FF and b & ((1 << 52) - 1):
+                b = NAN
+            add(("float", b))
+        elif k == "DEC":
+            add(("dec", int(c[1]), int(c[2]), c[3] != "0"))
+        elif k == "TS":
+            add(("ts", tuple(int(x) for x in c[1].split(","))))
+        elif k == "SYM":
+            add(("sym", tok_text(c[1])))
+        elif k == "SFS":
+            add(("sym", bytes.fromhex(c[1][1:])))
+        elif k == "STR":
+            add(("str", bytes.fromhex(c[1][1:])))
+        elif k == "CLOB":
+            add(("clob", bytes.fromhex(c[1][1:])))
+        elif k == "BLOB":
+            add(("blob", bytes.fromhex(c[1][1:])))
+        elif k in ("BL", "BS", "BT"):
+            kind = {"BL": "list", "BS": "sexp", "BT": "struct"}[k]
+            stack.append((kind, [], field, annots, stack[-1][0]))
+            if stack[-2][0] == "struct" and field is None:
+                raise Malformed("container in struct without field name")
+            field, annots = None, []
+        elif k in ("EL", "ES", "ET"):
+            kind = {"EL": "list", "ES": "sexp", "ET": "struct"}[k]
+            if stack[-1][0] != kind:
+                raise Malformed("end of the wrong container")
+            _, items, f, a, _ = stack.pop()
+            field, annots = f, a
+            add((kind, items))
+        elif k == "FIN":
+            if len(stack) != 1:
+                raise Malformed("finish inside a container")
+            batches.append(stack[0][1])
+            stack = [("top", [])]
+            field, annots = None, []
+    if len(stack) != 1 or stack[0][1]:
+        batches.append(None)     # values after the last Finish (not flushed) or open containers
+    return batches
+
+
+def show_any_sym(t):
+    if isinstance(t, tuple):
+        return "i%d" % t[1]
+    return "t" + bytes(t).hex()
